@@ -64,6 +64,7 @@ class PropertyRun:
         self.solver_s = 0.0
         self.bounded = []
         self.unexpected_unreached = []
+        self.force_level = None
         self.explanation = ''
 
     # -- intake -----------------------------------------------------------------------------
@@ -224,6 +225,8 @@ class PropertyRun:
             lines.append(f'CHECKER-ERROR property={self.prop} zero obligations generated (vacuity guard)')
         proved_all = (self.discharged == self.obligations) and not self.not_proved and not self.bounded
         level = self.level if (self.level != 'proof' or proved_all or self.failures) else 'other'
+        if self.force_level:
+            level = self.force_level
         coverage = {
             'obligations': self.obligations,
             'discharged': self.discharged,
